@@ -133,7 +133,7 @@ def main(chk, tier, seed):
     chk.assumptions = ["per-channel FIFO for same-priority messages (what Messaging guarantees)",
                        "brute-force optimum over harness-owned cost tables is the oracle",
                        "messages passed by reference as in thread mode; a fraction of runs goes through the JSON wire format"]
-    n = 1000 if tier == "quick" else 6000
+    n = 1000 if tier == "quick" else 24000
     nsched = 3 if tier == "quick" else 6
     common.run_chunked(chk, "c01", n, nchunks=16 if tier == "quick" else 64, job_extra={"nsched": nsched}, timeout=1800)
     chk.inconclusive_if(chk.counters.get("optimum_compared", 0) < n, "optimum compared on only %d runs" %
